@@ -9,6 +9,9 @@ CONSTANTS
   PoolN = 4
   Depth3 = FALSE
   M_ShiftOnce = TRUE
+  M_ContainsAnyRunes = TRUE
+  UChars = {1, 40, 41, 42, 48}
+  UMaxData = 2
   PartsOn = {}
   D_FoldWidth = FALSE
   D_ContainerNul = FALSE
